@@ -117,6 +117,10 @@ Builder ==
                                  <<"color", <<N(0), N(128), N(255)>>>>, <<"logical", "@l1">>, <<"logical", "@l2">>} :
             Do([op |-> "SetEntAttr", e |-> e, name |-> p[1], val |-> p[2]])
     \/ \E e \in EntIdx, s \in Strs : Do([op |-> "SetEntAttr", e |-> e, name |-> "comments", val |-> s])
+    \* (the rarer optional blocks get a disjunct of their own: the simulator picks disjuncts uniformly)
+    \/ \E e \in RealEnts : Do([op |-> "SetEntAttr", e |-> e, name |-> "hidden", val |-> TRUE])
+    \/ \E s \in SolidIdx(0) : \E p \in {<<"group", g>> : g \in GroupIds(doc)} \cup {<<"joinvis", g>> : g \in VisIds(doc)} :
+            Do([op |-> "SetSolidAttr", e |-> 0, s |-> s, name |-> p[1], val |-> p[2]])
     \/ \E dummy \in {1, 2, 3} : \E e \in RealEnts, g \in GroupIds(doc) : Do([op |-> "EntJoin", e |-> e, what |-> "group", id |-> g])
     \/ \E dummy \in {1, 2, 3} : \E e \in RealEnts, g \in VisIds(doc) : Do([op |-> "EntJoin", e |-> e, what |-> "vis", id |-> g])
     \/ \E b \in BOOLEAN : \E e \in EntIdx, c \in Corners, m \in Mats : Len(EntAt(doc, e).solids) < MaxSolids
